@@ -37,7 +37,7 @@ import sys
 from concurrent.futures import ProcessPoolExecutor
 from pathlib import Path
 
-TOOL_VERSION = "racetable-9"
+TOOL_VERSION = "racetable-10"
 CLANG = os.environ.get("BFL_CLANG", "clang++-14")
 EIGEN_INC = "/usr/include/eigen3"
 
@@ -790,6 +790,7 @@ def tree_hash(repo):
     return h.hexdigest()[:24]
 
 
+HOOKS_EXTRA = {("Logger", "log")}
 ESC_RET = re.compile(r"(&|\*|\bEigen::(Ref|Map|Block)\s*<[^()]*>)\s*(const\s*)?$")
 
 
@@ -998,6 +999,30 @@ def merge(res):
                 nr.pop("pre_spawn", None)
                 if nr not in bodies[k]["rows"]:
                     bodies[k]["rows"].append(nr)
+    # user hooks: the pure virtual functions declared by FilteringAlgorithm (initialization_step, filtering_step,
+    # run_condition) and the logging hook Logger::log are implemented by user code that may touch any plain state
+    # of the user's filter.  Every call of a hook is a write to the pseudo-member `user::hook_state`, at the call
+    # site, with the locks in scope there: a hook invoked from a controller command then conflicts with the
+    # filtering thread's own invocations like any other unsynchronised member.
+    hooks = {k for k, m in methods.items() if (m["cls"] == "FilteringAlgorithm" and m["pure"]) or (k[0], k[1]) in HOOKS_EXTRA}
+    hooks |= {k for k in methods if any((h[1], h[2]) == (k[1], k[2]) and k[0] in desc.get(h[0], []) for h in list(hooks))}
+    hook_sites = [sp for sp in site_pos if sp[1] in hooks and sp[2] in ("direct", "virtual")]
+    if hook_sites:
+        classes.setdefault("user", {"bases": [], "fields": [("hook_state", "plain", "state of the user's filter touched by its hooks", 0)],
+                                    "methods": {}, "file": "", "line": 0})
+        anc.setdefault("user", [])
+        fields.append({"cls": "user", "name": "hook_state", "kind": "plain", "type": "(pseudo-member)", "file": "", "line": 0})
+        fid[("user", "hook_state")] = len(fields) - 1
+        lockmap = {}
+        for (a, b, kd, th, lk) in sites:
+            lockmap.setdefault((a, b, kd, th), set()).update(lk)
+        for (k, t, kd, th, file, line, col) in hook_sites:
+            if k not in bodies:
+                continue
+            nr = {"cls": "user", "field": "hook_state", "acc": "w", "self": bool(th), "kindhint": "plain",
+                  "locks": sorted(lockmap.get((k, t, kd, th), ())) if th else [], "file": file or bodies[k]["file"], "line": line, "col": 0}
+            if nr not in bodies[k]["rows"]:
+                bodies[k]["rows"].append(nr)
     accesses, via_rows = [], []
     for k in mkeys:
         for r in bodies.get(k, {}).get("rows", []):
